@@ -193,6 +193,33 @@ func (f *Funded) FundImportedKey(rg *rand.Rand, sc waddrmgr.KeyScope, n int) err
 	return nil
 }
 
+// FundSmall pays n small confirmed coins (1 500..9 000 sat: around what an input
+// costs at 20..100 sat/vB) to fresh account-0 addresses of random scopes.
+func (f *Funded) FundSmall(rg *rand.Rand, n int) error {
+	var txs []*wire.MsgTx
+	var cs []*Coin
+	for i := 0; i < n; i++ {
+		sc := FundScopes[rg.Intn(len(FundScopes))]
+		a, err := f.W.NewAddress(0, sc)
+		if err != nil {
+			return fmt.Errorf("NewAddress: %w", err)
+		}
+		tx := f.PayTo(a, int64(1500+rg.Intn(7500)))
+		txs = append(txs, tx)
+		cs = append(cs, &Coin{Op: wire.OutPoint{Hash: tx.TxHash(), Index: 0}, Out: tx.TxOut[0], Scope: sc, Acct: 0, Height: -1})
+	}
+	f.Chain.Barrier()
+	f.Chain.Extend(txs...)
+	ht := f.Chain.Height()
+	f.Chain.NotifyConnect(int(ht))
+	for _, c := range cs {
+		c.Height = ht
+		f.Coins[c.Op] = c
+	}
+	f.Chain.Barrier()
+	return nil
+}
+
 func (f *Funded) Tip() int32 { return f.Chain.Height() }
 
 func (c *Coin) Confs(tip int32) int32 {
